@@ -264,6 +264,9 @@ def get_now_frame(
              but you may input nano second {unix_time}"
         )
 
+    if len(ground_truth_frames) == 0:
+        return None
+
     ground_truth_now_frame: FrameGroundTruth = ground_truth_frames[0]
     min_time: int = abs(unix_time - ground_truth_now_frame.unix_time)
 
